@@ -1,4 +1,6 @@
 import Unimock.Driver.Universe
+import Unimock.Model.Interleave
+import Unimock.Model.ValueChain
 /-!
 # Line protocol: parse scenarios, run them on the model, print the canonical trace
 
@@ -247,5 +249,120 @@ partial def runScenario (lines : List (List String)) (st : RunState) : RunState 
       let line := showOutcome w' inst o
       let st := { w := w', out := (st.out.push line).append (showState w').toArray }
       runScenario rest st
+
+end Unimock.Driver
+
+namespace Unimock.Driver
+open Unimock
+
+/-! ## concurrent scenarios (`par`): run given schedules on the interleaving model -/
+
+def errKind : MockError → String
+  | .noMockImplementation _ => "NoMockImplementation"
+  | .noMatcherFunction _ _ => "NoMatcherFunction"
+  | .noMatchingCallPatterns _ => "NoMatchingCallPatterns"
+  | .noOutputAvailable _ _ => "NoOutputAvailableForCallPattern"
+  | .callOrderNotMatched _ _ _ => "CallOrderNotMatchedForMockFn"
+  | .inputsNotMatchedInCallOrder _ _ _ => "InputsNotMatchedInCallOrder"
+  | .cannotReturnValueMoreThanOnce _ _ => "CannotReturnValueMoreThanOnce"
+  | .cannotUnmock _ => "CannotUnmock"
+  | .noDefaultImpl _ => "NoDefaultImpl"
+  | .notAnswered _ => "NotAnswered"
+  | .explicitPanic _ _ _ => "ExplicitPanic"
+  | .failedVerification _ _ _ _ _ => "FailedVerification"
+  | .mockNeverCalled _ => "MockNeverCalled"
+
+def showThreadOut : ThreadOut R → String
+  | .ret v => s!"ret:{v}"
+  | .cont k => s!"cont:{k}"
+  | .err e => s!"err:{errKind e}"
+  | .userPanic => "user"
+
+def showCounts (s : Shared A R) : String :=
+  " ".intercalate (sortStrings (s.mockers.map fun fm =>
+    s!"{showCall fm.info}[" ++ ",".intercalate (fm.pats.map (toString ·.count)) ++ "]"))
+
+def showVerdict (s : Shared A R) : String :=
+  if !s.reasons.isEmpty then " | ".intercalate (s.reasons.map (showErr s))
+  else
+    let es := verifyAll s
+    if es.isEmpty then "ok" else " | ".intercalate (es.map (showErr s))
+
+def parseNatList (s : String) : List Nat :=
+  ((s.splitOn ",").filter (· ≠ "")).map fun x => x.toNat?.getD 0
+
+/-- the unfinished threads in ascending order, as the real scheduler enumerates them -/
+def picksOf (p : ParState A R) : List Nat → List Nat
+  | [] => []
+  | c :: cs =>
+    let enabled := (p.threads.zipIdx.filter fun x => !x.1.isFinished).map (·.2)
+    match enabled[min c (enabled.length - 1)]? with
+    | none => []
+    | some tid => tid :: picksOf (parStep p c) cs
+
+def runParScenario (lines : List (List String)) : Array String := Id.run do
+  -- build block, then `par`, `tcall`* , `schedule`*
+  let parPos := lines.findIdx (fun t => t.head? == some "par")
+  let buildLines := lines.take parPos
+  let rest := lines.drop parPos
+  let mut out : Array String := #[]
+  match parseEvent buildLines with
+  | some (.build _ _ fb c, _, _) =>
+    match newMock fb c with
+    | .error e => out := out.push s!"build-panic {showAsmErr e}"
+    | .ok s0 =>
+      let n := kvNat (rest.headD []) "threads"
+      let tcalls := rest.filter (fun t => t.head? == some "tcall")
+      let threads : List (ThreadSt A R) := (List.range n).map fun k =>
+        { todo := (tcalls.filter (fun t => kvNat t "k" == k)).map fun t => (methodInfo (kvNat t "m"), kvNat t "a") }
+      for sl in rest.filter (fun t => t.head? == some "schedule") do
+        let choices := parseNatList (sl.getD 1 "")
+        let p0 : ParState A R := { shared := s0, threads := threads }
+        let p := parRun p0 choices
+        let picks := picksOf p0 choices
+        let tags := "|".intercalate (p.threads.map fun t => ",".intercalate t.tags)
+        let outs := "|".intercalate (p.threads.map fun t => ",".intercalate (t.outs.map showThreadOut))
+        let allDone := p.threads.all (·.isFinished)
+        let kinds := ",".intercalate (sortStrings (p.shared.reasons.map errKind))
+        out := out.push (s!"sched {",".intercalate (choices.map toString)} picks={",".intercalate (picks.map toString)} tags={tags} outs={outs} " ++
+          s!"next={p.shared.nextOrdered} counts={showCounts p.shared} reasons={kinds} verdict={showVerdict p.shared}" ++
+          (if allDone then "" else " UNFINISHED"))
+  | _ => out := out.push "parse-error"
+  return out
+
+end Unimock.Driver
+
+namespace Unimock.Driver
+open Unimock
+
+/-! ## value-chain scenarios (`via` line): `ref`, `mut`, implicit final drop -/
+
+def showSerials (l : List Nat) : String :=
+  ",".intercalate ((l.toArray.qsort (· < ·)).toList.map toString)
+
+def runChainScenario (lines : List (List String)) : Array String := Id.run do
+  let mut chain : Chain := []
+  let mut refs : List Nat := []
+  let mut out : Array String := #[]
+  for t in lines do
+    match t.head? with
+    | some "ref" =>
+      let (c, i) := chain.push ⟨kvNat t "s", kvNat t "ty"⟩
+      chain := c
+      refs := refs ++ [i]
+      let reads := refs.map fun r => match chain.read r with | some v => toString v.serial | none => "?"
+      out := out.push s!"ref reads={",".intercalate reads} distinct={decide (refs.eraseDups.length = refs.length)} drops="
+    | some "check" =>
+      let reads := refs.map fun r => match chain.read r with | some v => toString v.serial | none => "?"
+      out := out.push s!"check reads={",".intercalate reads} distinct={decide (refs.eraseDups.length = refs.length)} drops="
+    | some "mut" =>
+      let (c, i, dropped) := chain.pushMut ⟨kvNat t "s", kvNat t "ty"⟩
+      chain := c
+      refs := []
+      let v := match chain.read i with | some v => toString v.serial | none => "?"
+      out := out.push s!"mut reads={v} distinct=true drops={showSerials (dropped.map (·.serial))}"
+    | _ => pure ()
+  out := out.push s!"drop drops={showSerials (chain.dropAll.map (·.serial))}"
+  return out
 
 end Unimock.Driver
